@@ -856,7 +856,9 @@ class AnsiString:
                 elif len(optimized_codes_str) < len(codes_str):
                     codes_str = optimized_codes_str
             if idx == 0 and reset_start:
-                codes_str = ansi_sep.join([str(AnsiParam.RESET.value), codes_str])
+                # The reset must be written even when the settings themselves optimize to nothing
+                apply_to_out_str = True
+                codes_str = ansi_sep.join([str(AnsiParam.RESET.value)] + ([codes_str] if codes_str else []))
             # Apply these settings
             if apply_to_out_str:
                 out_str += ansi_graphic_rendition_format.format(codes_str)
